@@ -22,6 +22,7 @@ for id in "$@"; do
   out=$(cd "$root/verif" && VERIF_REPO="$root/repo" VERIF_SEED=${VERIF_SEED:-1} ./check $id --tier ${TIER:-quick} 2>&1)
   rc=$?
   echo "=== $name $id rc=$rc ($(( $(date +%s)-start ))s)"
-  echo "$out" | grep -E "VIOLATION|KNOWN-FINDING|key=|\[check\] C|build failed" | head -${LINES_MAX:-8}
+  echo "$out" | grep -E "VIOLATION|key=|\[check\] C|build failed" | head -${LINES_MAX:-12}
+  echo "   ($(echo "$out" | grep -c KNOWN-FINDING) KNOWN-FINDING lines)"
   if [ $rc -ne 0 ] && [ -n "${KEEP_OUT:-}" ]; then echo "$out" > "$KEEP_OUT.$id.log"; fi
 done
